@@ -853,6 +853,16 @@ impl ContinuityStreamCache {
             }
         }
 
+        // A scan that reached the start of the file holds the whole cache: it has to begin with
+        // the thread's first frame. A sidecar that was lost and re-created by later appends holds
+        // only the newest frames and must not be taken for the whole thread.
+        if parsed.complete && events.first().map(|event| event.seq) != Some(0) {
+            return Err(io::Error::new(
+                io::ErrorKind::InvalidData,
+                "continuity sidecar does not start at seq 0",
+            ));
+        }
+
         Ok(Some(TailScan {
             events,
             complete: parsed.complete,
